@@ -398,6 +398,24 @@ def case_order(mon, ja, jb):
         mon.check("order.matches-jde", got4 == want4,
                   {"a": ja, "b": jb, "lt_le_gt_ge": got4,
                    "jde_relations": want4})
+        # ... and == / != outside the band around the documented tolerance:
+        # further apart than 2e-10 day the two are different instants, closer
+        # than 0.5e-10 they are the same (a few ulps are 5e-10 day and more
+        # at present-day JDEs)
+        gap = abs(ja - jb)
+        if gap > 2e-10 or gap < 0.5e-10:
+            try:
+                eq = [a == b, a != b, b == a, a == jb, a != jb]
+            except Exception as ex:
+                mon.dev("order.matches-jde", {"a": ja, "b": jb,
+                                              "raised": repr(ex)})
+                return
+            same = gap < 0.5e-10
+            mon.check("order.matches-jde",
+                      eq == [same, not same, same, same, not same],
+                      {"a": ja, "b": jb, "gap_day": gap,
+                       "eq_ne_eqrev_eqnum_nenum": eq,
+                       "documented_tolerance": 1e-10})
         return
     if ja != jb and abs(ja - jb) < 1e-3:
         mon.cls("close-epoch-pair", (ja, jb), [ja, jb])
